@@ -1,4 +1,4 @@
-CONSTANTS W = 3  H = 3  PINNED = TRUE
+CONSTANTS W = 3  H = 3  PINNED = TRUE  LAYERFULL = FALSE
 INIT MCInit
 NEXT MCNext
 INVARIANT ClipRefines
